@@ -25,7 +25,7 @@ CONSTANTS MaxParams,     \* longest signature
           Emit
 
 Kinds == {"po", "pk", "va", "ko", "vk"}
-Param == [kind : Kinds, dflt : BOOLEAN, ann : BOOLEAN]
+Param == [kind : Kinds, dflt : BOOLEAN, ann : IF Unannotated THEN BOOLEAN ELSE {TRUE}]
 KRank(k) == CASE k = "po" -> 1 [] k = "pk" -> 2 [] k = "va" -> 3 [] k = "ko" -> 4 [] k = "vk" -> 5
 
 Name(i) == "p" \o ToString(i)
